@@ -89,6 +89,38 @@ fn code_of(r: Result<(), SlidingWindowError>) -> i128 {
     }
 }
 
+/// what `insert_with_evicted_inner` establishes for the report it returns: advancing the right edge over all reported
+/// bits stays inside the packet number range (the new right edge is at most 2^62-1)
+fn evicted_inv(ev: &EvictedSet) -> bool {
+    ev.window == 0 || ev.right_edge.as_u64() + 128 - (ev.window.trailing_zeros() as u64) <= MAXV
+}
+
+fn evicted_next_step(e: u64, bits: u128) {
+    // one step of the iterator: it yields the smallest reported packet number and removes exactly that one; by
+    // induction the iterator enumerates the reported set in increasing order, each member once
+    let q: u64 = kani::any();
+    kani::assume(e <= MAXV && q <= MAXV);
+    let mut ev = EvictedSet { window: bits, right_edge: pn_of(e) };
+    kani::assume(evicted_inv(&ev));
+    let old_q = reported(&ev, q);
+    let r = ev.next();
+    let new_q = reported(&ev, q);
+    let (is_some, m) = match r {
+        Some(m) => (true, m.as_u64()),
+        None => (false, 0),
+    };
+    assert!(is_some || !old_q, "C06/evicted_set.next/none_only_when_empty");
+    assert!(!is_some || (m < e && e - m <= 128 && (bits >> (e - m - 1)) & 1 == 1), "C06/evicted_set.next/yields_a_reported_number");
+    assert!(!is_some || !old_q || q >= m, "C06/evicted_set.next/yields_the_smallest_first");
+    assert!(!is_some || new_q == (old_q && q != m), "C06/evicted_set.next/removes_exactly_the_yielded_number");
+    assert!(is_some || !new_q, "C06/evicted_set.next/stays_empty");
+    assert!(evicted_inv(&ev), "C06/evicted_set.next/inv_preserved");
+    kani::cover!(is_some && bits.leading_zeros() == 0, "reach:leading_bit");
+    kani::cover!(is_some && bits.leading_zeros() == 127, "reach:last_bit");
+    kani::cover!(!is_some, "reach:exhausted");
+    kani::cover!(true, "reach:end");
+}
+
 //@ harness props=C06,C16 tier=quick level=full timeout=240
 //@ fn SlidingWindow::check
 //@ fn SlidingWindow::window_position
@@ -230,69 +262,57 @@ fn vq_c06_sliding_window_public_insert() {
     kani::cover!(true, "reach:end");
 }
 
-//@ harness props=C06,C16 tier=thorough level=bounded timeout=1500 bound="real dev-profile self-check (129-iteration loops, unwind 130) only for: first insert into an empty window, or pn <= right_edge (window does not slide); sliding inserts are covered without the self-check by vq_c06_sliding_window_insert / _public_insert"
+//@ harness props=C06,C16 tier=thorough level=bounded timeout=1750 bound="real dev-profile self-check (129-iteration loop, unwind 130) only for the first insert into an empty window, as the in-tree harness insert_test; from an arbitrary window the nested loops of check_insert_result did not finish in 25 min (with or without sliding) -- those inserts are covered without the self-check by vq_c06_sliding_window_insert / _public_insert"
 //@ fn SlidingWindow::insert
 //@ fn SlidingWindow::insert_with_evicted
 //@ fn SlidingWindow::check_insert_result
 #[kani::proof]
 #[kani::unwind(130)]
-fn vq_c06_sliding_window_public_insert_self_check() {
-    let mut w = any_window();
+fn vq_c06_sliding_window_selfcheck_first_insert() {
+    let mut w = SlidingWindow::default();
     let pn: u64 = kani::any();
-    kani::assume(pn <= MAXV);
-    kani::assume(!has_edge(&w) || (pn as i128) <= edge(&w));
-    let (he, e, m_pn) = (has_edge(&w), edge(&w), member(&w, pn));
+    let q: u64 = kani::any();
+    kani::assume(pn <= MAXV && q <= MAXV);
     let res = w.insert(pn_of(pn));
-    let code = code_of(res);
     // reaching this point means the crate's own self-check did not fire
-    assert!(sw_insert_code_is_check(he, e, pn as i128, m_pn, code), "C06/sliding_window.insert/public_verdict_is_check_of_old_state");
-    assert!(sw_insert_edge_is_max(he, e, pn as i128, code, has_edge(&w), edge(&w)), "C06/sliding_window.insert/public_right_edge_is_max");
-    assert!(code != sw_ok() || member(&w, pn), "C06/sliding_window.insert/public_accepted_pn_is_recorded");
-    kani::cover!(code == sw_ok() && !he, "reach:first_insert");
-    kani::cover!(code == sw_ok() && he, "reach:fill_gap");
-    kani::cover!(code == sw_duplicate(), "reach:duplicate");
-    kani::cover!(code == sw_too_old(), "reach:too_old");
+    assert!(res.is_ok(), "C06/sliding_window.insert/first_insert_accepted");
+    assert!(has_edge(&w) && edge(&w) == pn as i128 && w.window == 0, "C06/sliding_window.insert/first_insert_sets_right_edge");
+    assert!(member(&w, q) == (q == pn), "C06/sliding_window.insert/first_insert_records_exactly_pn");
+    assert!(code_of(w.check(pn_of(pn))) == sw_duplicate(), "C06/sliding_window.insert/first_insert_then_duplicate");
+    kani::cover!(pn == 0, "reach:zero");
+    kani::cover!(pn == MAXV, "reach:max");
     kani::cover!(true, "reach:end");
 }
 
 // ---- EvictedSet iterator -------------------------------------------------------------------------------
-/// what `insert_with_evicted_inner` establishes for the report it returns: advancing the right edge over all reported
-/// bits stays inside the packet number range (the new right edge is at most 2^62-1)
-fn evicted_inv(ev: &EvictedSet) -> bool {
-    ev.window == 0 || ev.right_edge.as_u64() + 128 - (ev.window.trailing_zeros() as u64) <= MAXV
-}
 
-//@ harness props=C06,C16 tier=thorough level=full timeout=1500
+//@ harness props=C06,C16 tier=quick level=bounded timeout=300 bound="previous right edge >= 128: no bit of the report stands for a packet number below 0, the skip loop runs once"
 //@ fn EvictedSet::next
 #[kani::proof]
-#[kani::unwind(130)]
-fn vq_c06_evicted_set_next() {
-    // one step of the iterator from an arbitrary report (including the spurious bits below packet number 0 that
-    // `!window & mask` produces): it yields the smallest reported packet number and removes exactly that one; by
-    // induction the iterator enumerates the reported set in increasing order, each member once
+#[kani::unwind(2)]
+fn vq_c06_evicted_set_next_plain() {
+    // obligations asserted in evicted_next_step(): "C06/evicted_set.next/none_only_when_empty" "C06/evicted_set.next/yields_a_reported_number"
+    // "C06/evicted_set.next/yields_the_smallest_first" "C06/evicted_set.next/removes_exactly_the_yielded_number"
+    // "C06/evicted_set.next/stays_empty" "C06/evicted_set.next/inv_preserved"
     let e: u64 = kani::any();
     let bits: u128 = kani::any();
-    let q: u64 = kani::any();
-    kani::assume(e <= MAXV && q <= MAXV);
-    let mut ev = EvictedSet { window: bits, right_edge: pn_of(e) };
-    kani::assume(evicted_inv(&ev));
-    let old_q = reported(&ev, q);
-    let r = ev.next();
-    let new_q = reported(&ev, q);
-    match r {
-        None => {
-            assert!(!old_q, "C06/evicted_set.next/none_only_when_empty");
-        }
-        Some(m) => {
-            let m = m.as_u64();
-            assert!(m < e && e - m <= 128 && (bits >> (e - m - 1)) & 1 == 1, "C06/evicted_set.next/yields_a_reported_number");
-            assert!(!old_q || q >= m, "C06/evicted_set.next/yields_the_smallest_first");
-            assert!(new_q == (old_q && q != m), "C06/evicted_set.next/removes_exactly_the_yielded_number");
-        }
-    }
-    assert!(evicted_inv(&ev), "C06/evicted_set.next/inv_preserved");
-    kani::cover!(r.is_none() && bits != 0, "reach:only_spurious_bits");
-    kani::cover!(r.is_some() && bits.leading_zeros() == 0, "reach:leading_bit");
-    kani::cover!(r.is_some() && e < 128, "reach:near_zero");
-    kani::cover!(true, "reach:end");
+    kani::assume(e >= 128);
+    evicted_next_step(e, bits);
+}
+
+//@ harness props=C06,C16 tier=quick level=bounded timeout=300 bound="previous right edge < 128 with at most 1 spurious bit (a bit standing for a packet number below 0, which `!window & mask` produces) to skip; the full 129-iteration skip loop (unwind 130) did not finish in 25 min, two spurious bits not in 20 min"
+//@ fn EvictedSet::next
+#[kani::proof]
+#[kani::unwind(3)]
+fn vq_c06_evicted_set_next_spurious() {
+    // obligations asserted in evicted_next_step(): "C06/evicted_set.next/none_only_when_empty" "C06/evicted_set.next/yields_a_reported_number"
+    // "C06/evicted_set.next/yields_the_smallest_first" "C06/evicted_set.next/removes_exactly_the_yielded_number"
+    // "C06/evicted_set.next/stays_empty" "C06/evicted_set.next/inv_preserved"
+    let e: u64 = kani::any();
+    let bits: u128 = kani::any();
+    kani::assume(e < 128);
+    let spurious = bits >> e; // positions e.. stand for packet numbers below 0
+    kani::assume(spurious & spurious.wrapping_sub(1) == 0); // zero or a single bit
+    evicted_next_step(e, bits);
+    kani::cover!(spurious != 0 && (bits & !(spurious << e)) != 0, "reach:one_skipped_then_yield");
 }
